@@ -2,7 +2,7 @@
 (* Trace validation of hpl.types.DataType against HplTypes (C20).                   *)
 (* One event = one call on the real DataType flag:                                  *)
 (*   cast(s,t) -> ok r | TypeError ; can_be(s,t) -> bool ; union(args) -> r ;       *)
-(*   can_be_<base>(s) -> bool                                                        *)
+(*   can_be_<base>(s) -> bool ; expr_cast: node.cast(t) on an AST node with type s   *)
 EXTENDS TraceBatch, HplTypes
 VARIABLES l
 vars == <<l>>
@@ -10,7 +10,7 @@ vars == <<l>>
 S(x) == ToSet(x)
 
 Verdict(e) ==
-  IF e.op = "cast" THEN
+  IF e.op \in {"cast", "expr_cast"} THEN      \* expr_cast: HplExpression.cast on a node whose stored type set is s
        LET s == S(e.s) t == S(e.t) IN
        IF CastOK(s, t)
          THEN (IF e.out # "ok" THEN {"Cast.MustSucceed"} ELSE
